@@ -93,7 +93,7 @@ def load_cfg(rng: random.Random, tier: str, prop: str) -> gen.GenCfg:
     return gen.GenCfg(
         n_ranks=rng.choice([1, 1, 2, 3, 4] if tier == "thorough" else [1, 2, 2, 3]),
         n_steps=rng.choice([0, 1, 2, 2, 3]),
-        first_step_no=rng.choice([0, 3, 15]),
+        first_step_no=rng.choice([0, 3, 15, 8, 9, 98]),      # incl. numbers that gain a digit inside the trace (9 -> 10)
         # C01 speaks of every event mix: stream 0 (the legacy default stream) and interpreter frames included; C02 / C12 are stated for
         # positive stream ids
         streams=rng.choice([(7,), (7, 9), (7, 9, 13), (0, 7), (0,)] if prop == "C01" else [(7,), (7, 9), (7, 9, 13)]),
